@@ -17,7 +17,7 @@ PROPS = {
 }
 
 PROPS["C08"] = {
-    "suites": [{"name": "match", "quick": 250, "thorough": 6000}],
+    "suites": [{"name": "match", "quick": 1200, "thorough": 6000}],
     "required_theorems": ["C08_alert_ge_threshold", "C08_alert_veto", "C08_conf_range", "C08_alerts_sorted",
                           "C08_threshold_antitone", "C08_exact_in_full_json"],
     "level_text": "Kernel-checked theorems over exact rationals with an explicit NaN: every alert of the shared alert pipeline has a real confidence >= threshold, in [0,1], all required calls present (veto), alerts sorted, raising the threshold only removes alerts, JSON exact ⊆ full under the property's scoping (Pebble exact ⊆ full is C06_scanExact_sound + C06_scanFull_eq). The model is tied to MatchSignature / jsondb / pebbledb scans by a differential on generated topologies and signature sets, and the same clauses are evaluated as oracles on the real alerts of both backends.",
@@ -53,7 +53,7 @@ PROPS["C20"] = {
     "trusted_base": ["filepath.EvalSymlinks / os.Getwd behaviour as modelled by evalSym/absComps", "hook H2 (guard-only probe) placed directly after the sanitisation block"],
 }
 PROPS["C06"] = {
-    "suites": [{"name": "store", "quick": 60, "thorough": 1500, "timeout": 3000}],
+    "suites": [{"name": "store", "quick": 200, "thorough": 1500, "timeout": 3000}],
     "required_theorems": ["C06_inv_init", "C06_inv_step", "C06_reachable_inv", "C06_abs_nodup", "C06_abs_step", "C06_get_eq",
                           "C06_byTopology_eq", "C06_candidates_eq", "C06_scanFull_eq", "C06_scanExact_sound",
                           "C06_scanExact_complete", "C06_count_eq", "C06_list_eq", "C06_export_eq", "C06_stats_eq",
@@ -82,7 +82,7 @@ PROPS["C13"] = {
     "partial": "the Gemini provider's retry loop (genai SDK) is not scripted; invalid UTF-8 in commit messages goes through the Go-side envelope oracle only",
 }
 PROPS["C07"] = {
-    "suites": [{"name": "crash", "quick": 0, "thorough": 0, "timeout": 3000}],
+    "suites": [{"name": "crash", "quick": 16, "thorough": 0, "timeout": 3000}],
     "required_theorems": ["C07_single_batch", "C07_crash_atomic", "C07_log_replay", "C07_history_crash_consistent",
                           "C07_rebuild_crash_keeps_records", "C07_rebuild_crash_recordsOk", "C07_rebuild_repairs"],
     "level_text": "Kernel-checked on the store model: every mutation except the rebuild commits at most one atomic batch, so every crash prefix of the batch log of ANY rebuild-free history is the state after a prefix of the operations and satisfies the index invariant; an interrupted rebuild never changes a record, and re-running the rebuild from ANY state with intact records restores the full invariant with the same records. Tie (fault enumeration validating the model): a child process is SIGKILLed before every write-type file-system call of short histories on a real directory and the reopened store must be the state after `acked` or `acked+1` operations with consistent indexes (raw key dump == the Lean model's key set); on a strict in-memory FS unsynced data is dropped after every acknowledged operation.",
